@@ -405,7 +405,8 @@ class LoopSpec:
     the syntactically assigned ones."""
 
     def __init__(self, inv, k='k', types=None, extra_havoc=(), facts=(), exit=None, body_post=None, hints=None,
-                 head_hook=None, peel=False):
+                 head_hook=None, peel=False, body_post_on_break=True):
+        self.body_post_on_break = body_post_on_break   # an iteration that ends in `break` is an iteration: body_post is owed
         self.inv = list(inv.items()) if isinstance(inv, dict) else list(inv)
         self.exit = dict(exit or {})
         self.body_post = dict(body_post or {})   # checked at the end of every iteration (Y0 = output at loop head)
@@ -999,6 +1000,9 @@ class Engine:
             m = self.find_method(x, '__str__') or self.find_method(x, '__repr__')
             if m is not None:
                 return self.call_function(m, [], {})
+            sm = self.stub_method(x, '__str__')
+            if sm is not None:
+                return sm(self, [], {})
             raise Unsupported('str() of object')
         return str(x)
 
@@ -1639,6 +1643,7 @@ class Engine:
         env = self.bind_args(fnode, args, kwargs, f.bound, f.mod, f.closure)
         fr = Frame(f.qualname, f.mod, env, closure=f.closure)
         fr.cls = f.cls
+        self.loader.note_interpreted(f)
         if self.depth > 60:
             raise Unsupported('call depth exceeded in %s' % f.qualname)
         is_gen = self.loader.is_generator(fnode)
@@ -2162,6 +2167,7 @@ class Engine:
             except _Continue:
                 pass
             except _Break:
+                self.loop_break(spec, ordinal, fr, self.binop(ast.Add(), fr.env[spec.k], 1))
                 return
             self.loop_step(spec, ordinal, fr, node)
             raise PathEnd()
@@ -2228,6 +2234,7 @@ class Engine:
             except _Break:
                 broke = True
             if broke:
+                self.loop_break(spec, ordinal, fr, Sym(kz + 1, INT))
                 return
             fr.env[kname] = Sym(kz + 1, INT)
             self.loop_step(spec, ordinal, fr, node)
@@ -2490,6 +2497,18 @@ class Engine:
         for iname, itext in spec.inv:
             g = self.spec_eval(itext, fr)
             self.check('inv.step/loop%d/%s' % (ordinal, iname), g, kind='inv.step')
+
+    def loop_break(self, spec, ordinal, fr, k_after):
+        """the iteration ended in `break`: the per-iteration postcondition is still owed (k counts this iteration)"""
+        if not spec.body_post or not spec.body_post_on_break:
+            return
+        saved = fr.env.get(spec.k)
+        fr.env[spec.k] = k_after
+        try:
+            for bname, btext in spec.body_post.items():
+                self.check('body.post/loop%d/%s' % (ordinal, bname), self.spec_eval(btext, fr), kind='body.post')
+        finally:
+            fr.env[spec.k] = saved
 
     def loop_exit(self, spec, ordinal, fr):
         for nm, text in spec.exit.items():
